@@ -280,6 +280,36 @@ func (fr *frame) visitInstr(instr ssa.Instruction) continuation {
 		fr.env[instr] = fr.get(instr.X)
 
 	case *ssa.Convert:
+		// unsafe.Pointer(&s[i]): remember the tail of the slice so that a later conversion to
+		// *[N]T (simple8b's (*[240]uint64)(unsafe.Pointer(&dst[j]))) can view it as an array.
+		if ub, ok := instr.Type().Underlying().(*types.Basic); ok && ub.Kind() == types.UnsafePointer {
+			if ia, ok := instr.X.(*ssa.IndexAddr); ok {
+				if sl, ok := fr.get(ia.X).([]Value); ok {
+					if it, ok := fr.get(ia.Index).(*Term); ok && it.IsConst() && int(it.S()) < len(sl) {
+						fr.env[instr] = UnsafeSlicePtr{tail: sl[int(it.S()):cap(sl)], elem: fr.get(instr.X).(*Value)}
+						break
+					}
+				}
+			}
+		}
+		if usp, ok := fr.get(instr.X).(UnsafeSlicePtr); ok {
+			if pt, ok := instr.Type().Underlying().(*types.Pointer); ok {
+				if at, ok := pt.Elem().Underlying().(*types.Array); ok {
+					n := int(at.Len())
+					if n > len(usp.tail) {
+						n = len(usp.tail)
+					}
+					cell := new(Value)
+					*cell = Array(usp.tail[:n:n])
+					fr.env[instr] = cell
+					break
+				}
+				fr.env[instr] = usp.elem
+				break
+			}
+			fr.env[instr] = usp
+			break
+		}
 		fr.env[instr] = e.conv(instr.Type(), instr.X.Type(), fr.get(instr.X))
 
 	case *ssa.MultiConvert:
